@@ -452,7 +452,7 @@ theorem prefix_seq {p : Prims} (W : Laws p) (Bj : CipherBij p W.blk W.Paired) (o
             simp at h0
             have hau : o'.auth = o.auth := by rw [he', he, h0]
             have hw := consumed_eq_wire W Bj hp hA hsm hrun hau
-            obtain ⟨o'', c, body, hd, hrun', hmsg, _, hp'⟩ := roundtrip1 W hp hsm rest
+            obtain ⟨o'', c, body, hd, hrun', hmsg, _, hp', _⟩ := roundtrip1 W hp hsm rest
             rw [← hw, hrun] at hrun'
             injection hrun' with hoo _
             subst hoo
